@@ -42,6 +42,11 @@ def tree(rng, depth, used):
             kind = "P" if valid_utf8(c) else "Q"
         cte = rng.choice(["a", "a", "a", "q", "b", "n"])
         return f"S {hexs(rng.choice(CTYPES))} {cte} {kind} {hexs(c)}"
+    if rng.random() < 0.07:
+        # MultiPart::alternative_plain_html
+        pl = rng.choice(["plain text\r\n", "caf\u00e9", "", "line one\nline two\n", "--x\r\n"])
+        ht = rng.choice(["<p>hi</p>", "<b>caf\u00e9</b>\r\n", ""])
+        return f"H {hexs(pl)} {hexs(ht)}"
     b = rng.choice(BOUNDARIES)
     if b != "-":
         if b in used:
@@ -67,6 +72,9 @@ def boundary_free(case):
         elif toks[i] == "S":
             leaves.append(unhex(toks[i + 4]))
             i += 5
+        elif toks[i] == "H":
+            leaves += [unhex(toks[i + 1]), unhex(toks[i + 2])]
+            i += 3
         else:
             i += 1
     for l in leaves:
